@@ -20,6 +20,7 @@ table('/verif/seeded', '**Round 1** (`seeded/<ID>/`)')
 if os.path.isdir('/verif/seeded/round2'): table('/verif/seeded/round2', '**Round 2** (`seeded/round2/<ID>/`)')
 if os.path.isdir('/verif/seeded/round3'): table('/verif/seeded/round3', '**Round 3** (`seeded/round3/<ID>/`, twelve properties)')
 if os.path.isdir('/verif/seeded/round4'): table('/verif/seeded/round4', '**Round 4** (`seeded/round4/<ID>/`, the four scheduling properties)')
+if os.path.isdir('/verif/seeded/round5'): table('/verif/seeded/round5', '**Round 5** (`seeded/round5/<ID>/`: C09, C12, C19, C20)')
 print('**Reverse-of-fix seeds** (`seeded/regress-<commit>/`, quick tier):')
 print()
 print('| commit | property | result |')
